@@ -17,6 +17,7 @@
 //                                           recI k | recS sk | compI k | compS sk | finI k | finS sk | dtor
 //   pset c|m v      an X is copy/move-constructed inside the library (= std::promise::set_value)
 //   pdef            an X is default-constructed inside the library (the destructor's X{})
+//   ptmp            an X temporary is copy/move-constructed on the stack inside the library (not a set_value)
 //   got id v | got id broken | got id hang     what future `id` yielded
 //   exc <op..> <what>                  an exception escaped the API
 #include "gmlc/concurrency/DelayedObjects.hpp"
@@ -64,8 +65,17 @@ struct TV {
         if (t_api <= 0) {
             return;
         }
-        // inside the library an X is only ever constructed into a promise: interleaving point + monitor
+        // an interleaving point inside the library
         verif::sched();
+        // a temporary on this thread's stack (harmless extra copy) is not a set_value: set_value constructs into the
+        // heap-allocated result object of the shared state
+        char probe = 0;
+        auto a = reinterpret_cast<uintptr_t>(this);
+        auto b = reinterpret_cast<uintptr_t>(&probe);
+        if ((a > b ? a - b : b - a) < (1u << 18)) {
+            verif::emit("ptmp");
+            return;
+        }
         if (g_lock != nullptr && g_lock->owner != verif::self() + 1) {
             verif::fail("a promise is satisfied while promiseLock is not held by the satisfying thread");
         }
@@ -316,6 +326,12 @@ struct Runner {
 
 static verif::Result exec(const Script& sc, const verif::Config& cfg)
 {
+    // watchdog: a run takes milliseconds; broken library code (e.g. a map modified while it is iterated) can spin
+    // forever without reaching a scheduling point, which only a timer can turn into a verdict (SIGALRM => crash)
+    alarm(20);
+    struct Disarm {
+        ~Disarm() { alarm(0); }
+    } disarm;
     if (sc.config == "str") {
         Runner<std::string> r;
         return r.run(sc, cfg);
